@@ -89,6 +89,21 @@ static void do_nodes(IWDB db) {
   kv->fsm.release_mmap(&kv->fsm);
 }
 
+// node placement: "<page block>:<slot on the page>:<pnum>" per node of the level-0 chain
+static void do_nodes2(IWDB db) {
+  uint8_t *mm; if (kv->fsm.acquire_mmap(&kv->fsm, 0, &mm, 0)) { printf("nodes2 err\n"); return; }
+  uint32_t blk; memcpy(&blk, mm + db->addr + DOFF_N0_U4, 4);
+  printf("nodes2");
+  int budget = 1000000;
+  while (blk && budget-- > 0) {
+    uint8_t *sb = mm + BLK2ADDR(blk); int bpos = sb[SOFF_BPOS_U1_V2];
+    printf(" %lld:%d:%d", (long long) (BLK2ADDR(blk) - (bpos ? bpos - 1 : 0) * (long long) SBLK_SZ), bpos, (int) (int8_t) sb[SOFF_PNUM_U1]);
+    memcpy(&blk, sb + SOFF_N0_U4, 4);
+  }
+  printf("\n");
+  kv->fsm.release_mmap(&kv->fsm);
+}
+
 int main(int argc, char **argv) {
   setvbuf(stdout, 0, _IOLBF, 0);
   snprintf(basepath, sizeof basepath, "%s", argv[1]);
@@ -199,6 +214,8 @@ int main(int argc, char **argv) {
       if (dbs[atoi(w[1])]) do_dump(dbs[atoi(w[1])]); else printf("dump nodb\n");
     } else if (!strcmp(op, "nodes") && n == 2) {
       if (dbs[atoi(w[1])]) do_nodes(dbs[atoi(w[1])]); else printf("nodes nodb\n");
+    } else if (!strcmp(op, "nodes2") && n == 2) {
+      if (dbs[atoi(w[1])]) do_nodes2(dbs[atoi(w[1])]); else printf("nodes2 nodb\n");
     } else if (!strcmp(op, "cur") && n >= 3) {    // cur <c> <sub> ...
       int ci = atoi(w[1]); const char *sub = w[2];
       IWKV_cursor c = curs[ci];
